@@ -202,6 +202,14 @@ class ExactCollections:
             return [("ok", d, state)]
         return None
 
+    def unpack(self, value, n, node, state):
+        seq = self._seq(value, state) if not isinstance(value, GenV) else None
+        if seq is not None and not isinstance(value, DictV):
+            if len(seq) != n:
+                return None, True
+            return list(seq), False
+        return super().unpack(value, n, node, state)
+
     # ---- subscripts -----------------------------------------------------------------------
     def coll_subscript_load(self, objval, idxval, node, state):
         """-> (value, may_raise) or None"""
